@@ -10,11 +10,13 @@ open DirectVerif.Shapes
 
 theorem unet_ok (L : Nat) (s : Shape) (stk tr) (h : UAdm L s) :
     ∃ tr', run (unet UnetP.std L) ⟨s, stk, tr⟩ = .ok ⟨s, stk, tr'⟩ := by
-  obtain ⟨tr1, h1⟩ := unetLv_ok L s stk tr h
-  refine ⟨tr1, ?_⟩
-  unfold unet
-  rw [run_append_ok h1, run_cons_ok (step_conv_same (by decide) (by decide) stk tr1 (UAdm.pos h))]
-  rfl
+  cases L with
+  | zero => exact unetLv_ok 0 s stk tr h
+  | succ L =>
+    have := unetLevel_ok (unetLv UnetP.std L) [.conv 1 1 0 1]
+      (fun s stk tr hs => by rw [run_cons_ok (step_conv_same (by decide) (by decide) stk tr hs)]; rfl)
+      L (unetLv_ok L) s stk tr h
+    simpa only [unet, List.append_assoc, List.cons_append, List.nil_append] using this
 
 theorem axes_err {ok : Nat → Bool} {f : Nat → Nat} {s : Shape} (stk tr) (h : ∃ n ∈ s, ok n = false) :
     axes ok f ⟨s, stk, tr⟩ = .error .runtime := by
@@ -80,8 +82,30 @@ theorem unetLv_fails (L : Nat) : ∀ (s : Shape) (stk tr), Pos s → ¬ UAdm L s
 
 theorem unet_fails (L : Nat) (s : Shape) (stk tr) (hs : Pos s) (h : ¬ UAdm L s) :
     ∃ e, run (unet UnetP.std L) ⟨s, stk, tr⟩ = .error e := by
-  obtain ⟨e, he⟩ := unetLv_fails L s stk tr hs h
-  exact ⟨e, run_append_err he⟩
+  cases L with
+  | zero => exact unetLv_fails 0 s stk tr hs h
+  | succ L =>
+    simp only [unet, List.append_assoc]
+    by_cases hp : 1 < numel s
+    · rw [run_append_ok (run_convBlock stk tr hs hp)]
+      simp only [List.cons_append, List.nil_append, show UnetP.std.pk = 2 from rfl, show UnetP.std.ps = 2 from rfl]
+      rw [run_cons_ok (step_emit _ _ _), run_cons_ok (step_push _ _ _)]
+      by_cases h2 : ∀ n ∈ s, 2 ≤ n
+      · rw [run_cons_ok (step_pool2 _ _ h2)]
+        have hpos2 : Pos (s.map (· / 2)) := by
+          intro m hm
+          obtain ⟨n, hn, rfl⟩ := List.mem_map.mp hm
+          have := h2 n hn; omega
+        obtain ⟨e, he⟩ := unetLv_fails L (s.map (· / 2)) (s :: stk) (tr ++ [s]) hpos2 fun hA => h ⟨h2, hA⟩
+        exact ⟨e, run_append_err he⟩
+      · refine ⟨.runtime, run_cons_err ?_⟩
+        simp only [step]
+        apply axes_err
+        have : ∃ n ∈ s, ¬ 2 ≤ n := by
+          simpa using h2
+        obtain ⟨n, hn, hlt⟩ := this
+        exact ⟨n, hn, by simp [poolOk]; omega⟩
+    · exact ⟨.value, run_append_err (run_convBlock_err stk tr hs hp)⟩
 
 /-- closed form: every axis is at least `2^L` and the bottleneck `(n / 2^L)` has more than one element -/
 theorem UAdm_iff (L : Nat) : ∀ s : Shape, UAdm L s ↔ (∀ n ∈ s, 2 ^ L ≤ n) ∧ 1 < numel (s.map (· / 2 ^ L)) := by
@@ -370,10 +394,13 @@ theorem didn_ok (ndubs nconv : Nat) (skip : Bool) (s : Shape) (stk tr) (H : ∀ 
   have H' : ∀ n ∈ s, 3 ≤ n := fun n hn => (didnAxisOk_iff n).mp (H n hn)
   let m : Nat → Nat := fun n => convOut 3 2 1 1 (id n)
   have Hm : ∀ n ∈ s, 2 ≤ m n := by intro n hn; have := H' n hn; simp [m, convOut]; omega
-  -- the part after the optional second `push`
+  have Hc : ∀ n ∈ s, cropTo (id n) (2 * m n) = id n := by
+    intro n hn; have := H' n hn; simp only [m, convOut, cropTo_eq_min, id]; omega
+  -- everything between the initial `push` and the final crop
   have core : ∀ stk0 tr0, ∃ tr', run ([.conv 3 1 1 1, .emit, .conv 3 2 1 1, .emit] ++ (dubs DidnP.std ndubs ++
       (reconBlocks DidnP.std nconv ndubs ++ [.conv 1 1 0 1, .emit, .conv 3 1 1 1, .emit, .conv 1 1 0 1, .scale 2, .emit,
-        .conv 3 1 1 1, .emit, .popCrop]))) ⟨s.map id, s.map id :: stk0, tr0⟩ = .ok ⟨s.map id, stk0, tr'⟩ := by
+        .conv 3 1 1 1, .emit]))) ⟨s.map id, s.map id :: stk0, tr0⟩ =
+      .ok ⟨s.map (fun n => 2 * m n), s.map id :: stk0, tr'⟩ := by
     intro stk0 tr0
     have pre : ∃ tr1, run [.conv 3 1 1 1, .emit, .conv 3 2 1 1, .emit] ⟨s.map id, s.map id :: stk0, tr0⟩ =
         .ok ⟨s.map m, s.map id :: stk0, tr1⟩ := by
@@ -387,33 +414,30 @@ theorem didn_ok (ndubs nconv : Nat) (skip : Bool) (s : Shape) (stk tr) (H : ∀ 
     obtain ⟨tr3, h3⟩ := reconBlocks_ok nconv ndubs (s.map m) (s.map id :: stk0) tr2 hpos
     rw [run_append_ok h1, run_append_ok h2, run_append_ok h3]
     simp (disch := first | decide | (intro n hn; have := Hm n hn; simp at this ⊢ <;> omega))
-      only [run, stepm_conv_same, stepm_scale, stepm_popCrop, step_emit]
-    have e : s.map (fun n => cropTo (id n) (2 * m n)) = s.map id := by
-      apply List.map_congr_left; intro n hn; have := H' n hn
-      simp only [m, convOut, cropTo_eq_min, id]; omega
-    rw [e]
+      only [run, stepm_conv_same, stepm_scale, step_emit]
     exact ⟨_, rfl⟩
+  have e : ∀ last : Op, .push :: (([.conv 3 1 1 1, .emit, .conv 3 2 1 1, .emit] ++ (dubs DidnP.std ndubs ++
+      (reconBlocks DidnP.std nconv ndubs ++ [.conv 1 1 0 1, .emit, .conv 3 1 1 1, .emit, .conv 1 1 0 1, .scale 2, .emit,
+        .conv 3 1 1 1, .emit]))) ++ [last]) = [.push] ++ [.conv DidnP.std.ck 1 DidnP.std.cp 1, .emit,
+        .conv DidnP.std.dk DidnP.std.ds DidnP.std.dp 1, .emit] ++ dubs DidnP.std ndubs ++ reconBlocks DidnP.std nconv ndubs ++
+        [.conv 1 1 0 1, .emit, .conv DidnP.std.ck 1 DidnP.std.cp 1, .emit, .conv 1 1 0 1, .scale DidnP.std.r, .emit,
+         .conv DidnP.std.ck 1 DidnP.std.cp 1, .emit, last] := by
+    intro last; simp [DidnP.std]
+  obtain ⟨tr', h⟩ := core stk tr
+  rw [List.map_id] at h
   cases skip
-  · have e : didn DidnP.std ndubs nconv false = .push :: ([.conv 3 1 1 1, .emit, .conv 3 2 1 1, .emit] ++ (dubs DidnP.std ndubs ++
-      (reconBlocks DidnP.std nconv ndubs ++ [.conv 1 1 0 1, .emit, .conv 3 1 1 1, .emit, .conv 1 1 0 1, .scale 2, .emit,
-        .conv 3 1 1 1, .emit, .popCrop]))) := by
-      simp [didn, DidnP.std]
-    rw [e]
-    obtain ⟨tr', h⟩ := core stk tr
-    refine ⟨tr', ?_⟩
-    rw [List.map_id] at h
-    rw [run_cons_ok (step_push _ _ _)]
-    exact h
-  · have e : didn DidnP.std ndubs nconv true = .push :: .push :: (([.conv 3 1 1 1, .emit, .conv 3 2 1 1, .emit] ++ (dubs DidnP.std ndubs ++
-      (reconBlocks DidnP.std nconv ndubs ++ [.conv 1 1 0 1, .emit, .conv 3 1 1 1, .emit, .conv 1 1 0 1, .scale 2, .emit,
-        .conv 3 1 1 1, .emit, .popCrop]))) ++ [.popSame]) := by
-      simp [didn, DidnP.std]
-    rw [e]
-    obtain ⟨tr', h⟩ := core (s :: stk) tr
-    refine ⟨tr', ?_⟩
-    rw [List.map_id] at h
-    rw [run_cons_ok (step_push _ _ _), run_cons_ok (step_push _ _ _), run_append_ok h, run_cons_ok (step_popSame _ _ _)]
-    rfl
+  · refine ⟨tr', ?_⟩
+    simp only [didn, Bool.false_eq_true, if_false]
+    rw [← e, run_cons_ok (step_push _ _ _), run_append_ok h]
+    have := stepm_popCrop (g := fun n => 2 * m n) (t := id) (s := s) stk tr'
+    rw [List.map_congr_left Hc, List.map_id] at this
+    rw [run_cons_ok this]; rfl
+  · refine ⟨tr', ?_⟩
+    simp only [didn, if_true]
+    rw [← e, run_cons_ok (step_push _ _ _), run_append_ok h]
+    have := stepm_popCropSame (g := fun n => 2 * m n) (t := id) (s := s) stk tr' Hc
+    rw [List.map_id] at this
+    rw [run_cons_ok this]; rfl
 
 /-! ## ResNet, Conv2d, Conv2dGRU -/
 
@@ -422,11 +446,11 @@ theorem step_swap (s t : Shape) (rest tr) : step .swap ⟨s, t :: rest, tr⟩ = 
 theorem resnet_ok (nblocks : Nat) (s : Shape) (stk tr) (H : Pos s) :
     ∃ tr', run (resnet 3 1 nblocks) ⟨s, stk, tr⟩ = .ok ⟨s, stk, tr'⟩ := by
   simp only [resnet, List.append_assoc, List.cons_append, List.nil_append]
-  rw [run_cons_ok (step_push _ _ _), run_cons_ok (step_conv_same (by decide) (by decide) _ _ H),
-    run_cons_ok (step_emit _ _ _), run_cons_ok (step_swap _ _ _ _),
+  rw [run_cons_ok (step_conv_same (by decide) (by decide) _ _ H),
+    run_cons_ok (step_emit _ _ _),
     run_cons_ok (step_conv_same (by decide) (by decide) _ _ H), run_cons_ok (step_emit _ _ _),
     run_append_ok (run_replicate_conv_same (by decide) (by decide) _ _ _ H),
-    run_cons_ok (step_emit _ _ _), run_cons_ok (step_popSame _ _ _),
+    run_cons_ok (step_emit _ _ _),
     run_cons_ok (step_conv_same (by decide) (by decide) _ _ H),
     run_cons_ok (step_conv_same (by decide) (by decide) _ _ H), run_cons_ok (step_emit _ _ _)]
   exact ⟨_, rfl⟩
@@ -483,28 +507,32 @@ theorem gruBlock_ok (repl : Bool) (idx : Nat) (s : Shape) (stk tr) (H : Pos s) :
             run_cons_ok (rp 1), run_cons_ok (cv 3 1 1 (by decide) (by decide))]; rfl
     rwa [← hs] at key
 
+theorem gruGate_ok (inorm : Bool) (s : Shape) (stk tr) (H : Pos s) (Hn : inorm = true → 1 < numel s) :
+    run (gruGate inorm) ⟨s, stk, tr⟩ = .ok ⟨s, stk, tr⟩ := by
+  cases inorm
+  · simp only [gruGate, Bool.false_eq_true, if_false, List.nil_append]
+    rw [run_cons_ok (step_conv_same (by decide) (by decide) _ _ H)]; rfl
+  · simp only [gruGate, if_true, List.cons_append, List.nil_append]
+    rw [run_cons_ok (step_instNorm _ _ (Hn rfl)), run_cons_ok (step_conv_same (by decide) (by decide) _ _ H)]; rfl
+
 theorem gruLayers_ok (repl inorm : Bool) (m : Nat) : ∀ (s : Shape) (stk tr), Pos s → (inorm = true → 1 < numel s) →
-    ∃ tr', run (gruLayers repl inorm m) ⟨s, s :: stk, tr⟩ = .ok ⟨s, s :: stk, tr'⟩ := by
+    ∃ tr', run (gruLayers repl inorm m) ⟨s, stk, tr⟩ = .ok ⟨s, stk, tr'⟩ := by
   induction m with
   | zero => intro s stk tr _ _; exact ⟨tr, rfl⟩
   | succ m ih =>
     intro s stk tr H Hn
     obtain ⟨tr1, h1⟩ := ih s stk tr H Hn
-    simp only [gruLayers, List.append_assoc, List.cons_append, List.nil_append]
-    rw [run_append_ok h1, run_append_ok (gruBlock_ok repl m s _ _ H), run_cons_ok (step_emit _ _ _),
-      run_cons_ok (step_popSame _ _ _), run_cons_ok (step_push _ _ _)]
-    cases inorm
-    · exact ⟨_, rfl⟩
-    · simp only [if_true]
-      rw [run_cons_ok (step_instNorm _ _ (Hn rfl))]
-      exact ⟨_, rfl⟩
+    simp only [gruLayers, List.append_assoc]
+    rw [run_append_ok h1, run_append_ok (gruBlock_ok repl m s _ _ H), List.cons_append, List.nil_append,
+      run_cons_ok (step_emit _ _ _), run_append_ok (gruGate_ok inorm s _ _ H Hn),
+      run_append_ok (gruGate_ok inorm s _ _ H Hn), gruGate_ok inorm s _ _ H Hn]
+    exact ⟨_, rfl⟩
 
 theorem gru_ok (repl inorm : Bool) (layers : Nat) (s : Shape) (stk tr) (H : Pos s) (Hn : inorm = true → 1 < numel s) :
-    ∃ tr', run (gru repl inorm layers) ⟨s, stk, tr⟩ = .ok ⟨s, s :: stk, tr'⟩ := by
+    ∃ tr', run (gru repl inorm layers) ⟨s, stk, tr⟩ = .ok ⟨s, stk, tr'⟩ := by
   obtain ⟨tr1, h1⟩ := gruLayers_ok repl inorm layers s stk tr H Hn
-  simp only [gru, List.append_assoc, List.cons_append, List.nil_append]
-  rw [run_cons_ok (step_push _ _ _), run_append_ok h1, run_append_ok (gruBlock_ok repl layers s _ _ H),
-    run_cons_ok (step_emit _ _ _)]
+  simp only [gru, List.append_assoc]
+  rw [run_append_ok h1, run_append_ok (gruBlock_ok repl layers s _ _ H), run_cons_ok (step_emit _ _ _)]
   exact ⟨_, rfl⟩
 
 /-! ## closed form of the MWCNN minimum -/
